@@ -33,6 +33,10 @@ where
 impl<'a> core::convert::From<&'a str> for MiniVec<u8> {
   fn from(s: &'a str) -> Self {
     let mut v = MiniVec::with_capacity(s.len());
+    if s.is_empty() {
+      return v;
+    }
+
     unsafe {
       let new_len = s.len();
       core::ptr::copy_nonoverlapping(s.as_ptr(), v.as_mut_ptr(), new_len);
